@@ -41,4 +41,16 @@ theorem destroy_releases_all (cap : Nat) (hc : 0 < cap) (m0 : Mem) (ops : List O
   simp only [Rbuf.destroy, run_keeps_triple]
   simpa [Rbuf.destroy] using hl.2
 
+/-- `cc_rbuf_peek` never reads outside the buffer, for EVERY `int` index (negative, beyond the
+capacity): no fault, ledger untouched -/
+theorem peek_nofault (r : Rbuf) (i : Int) (m : Mem) (h : r.Inv) : (r.peek i m).2 = m := by
+  obtain ⟨_, hl, _⟩ := h
+  unfold Rbuf.peek
+  split
+  · rfl
+  · rename_i hn
+    have hb : decide (i.toNat < r.buf.length) = true := by
+      simp only [decide_eq_true_eq]; omega
+    simp [hb]
+
 end CC.Properties.C06Rbuf
